@@ -366,6 +366,9 @@ def derived(K4):
         ("or", K4[0], K4[2]), ("or", ("or", K4[0], K4[2]), NONE), ("or", K4[1], ("any", (K4[2], NONE))),
         # the bare schema.any as an operand of | (it accepts everything, so does the union)
         ("or", ("any", None), K4[0]), ("or", K4[0], ("any", None)), ("or", ("or", ("any", None), K4[0]), NONE),
+        # a declared union and the bare schema.any, either way round (both operands are AnySchema)
+        ("or", ("or", K4[0], K4[2]), ("any", None)), ("or", ("any", None), ("or", K4[0], K4[2])),
+        ("or", ("any", (K4[0], NONE)), ("any", None)), ("any", (("any", (K4[0], K4[2])), ("any", None))),
         # a union on the right-hand side too (both operands already declared unions)
         ("or", ("or", K4[0], K4[2]), ("or", NONE, BOOL)), ("or", ("any", (K4[0], K4[2])), ("any", (NONE,))),
         ("or", ("or", K4[0], K4[2]), ("any", (("any", (NONE, BOOL)), S("bytes")))),
